@@ -392,13 +392,15 @@ fn grow_generic<Pk: KeyOf, Ctx: ScriptContext>(old: &[Typed], newest: &[Typed], 
             match (x.base, y.base) {
                 (B, W) => {
                     push("and_b", Node::AndB(bx(x), bx(y)));
-                    if x.d && y.d { push("or_b", Node::OrB(bx(x), bx(y))); }
+                    // no typing pre-filter here: the LIBRARY decides what is well-typed (a
+                    // mutation that widens a typing rule must be able to show up)
+                    push("or_b", Node::OrB(bx(x), bx(y)));
                 }
                 (B, B) => {
-                    if x.d && x.u { push("or_d", Node::OrD(bx(x), bx(y))); }
+                    push("or_d", Node::OrD(bx(x), bx(y)));
                     push("or_i:B", Node::OrI(bx(x), bx(y)));
                 }
-                (B, V) => { if x.d && x.u { push("or_c", Node::OrC(bx(x), bx(y))); } }
+                (B, V) => push("or_c", Node::OrC(bx(x), bx(y))),
                 (V, V) => push("or_i:V", Node::OrI(bx(x), bx(y))),
                 (K, K) => push("or_i:K", Node::OrI(bx(x), bx(y))),
                 _ => {}
@@ -406,13 +408,21 @@ fn grow_generic<Pk: KeyOf, Ctx: ScriptContext>(old: &[Typed], newest: &[Typed], 
         }
     }
     // thresholds and andor: random draws (the full products are cubic)
-    let bs: Vec<&&Typed> = all.iter().filter(|t| t.base == Base::B && t.d && t.u).collect();
-    let ws: Vec<&&Typed> = all.iter().filter(|t| t.base == Base::W && t.d && t.u).collect();
+    // 3 of 4 draws use children that satisfy the documented requirements (so that enough
+    // candidates are accepted), 1 of 4 draws any B / W child and lets the library decide
+    let bs_du: Vec<&&Typed> = all.iter().filter(|t| t.base == Base::B && t.d && t.u).collect();
+    let ws_du: Vec<&&Typed> = all.iter().filter(|t| t.base == Base::W && t.d && t.u).collect();
+    let bs_any: Vec<&&Typed> = all.iter().filter(|t| t.base == Base::B).collect();
+    let ws_any: Vec<&&Typed> = all.iter().filter(|t| t.base == Base::W).collect();
+    let bs = &bs_du;
+    let ws = &ws_du;
     if !bs.is_empty() && !ws.is_empty() {
         for _ in 0..quota * 3 {
             let n = 2 + rng.below(3);
-            let mut v = vec![bs[rng.below(bs.len())].node.clone()];
-            for _ in 1..n { v.push(ws[rng.below(ws.len())].node.clone()); }
+            let loose = rng.below(4) == 0 && !ws_any.is_empty();
+            let (bsel, wsel) = if loose { (&bs_any, &ws_any) } else { (bs, ws) };
+            let mut v = vec![bsel[rng.below(bsel.len())].node.clone()];
+            for _ in 1..n { v.push(wsel[rng.below(wsel.len())].node.clone()); }
             let k = 1 + rng.below(n);
             push("thresh", Node::Thresh(k, v));
         }
@@ -420,7 +430,7 @@ fn grow_generic<Pk: KeyOf, Ctx: ScriptContext>(old: &[Typed], newest: &[Typed], 
     let others: Vec<&&Typed> = all.iter().filter(|t| t.base != Base::W).collect();
     if !bs.is_empty() {
         for _ in 0..quota * 6 {
-            let a = bs[rng.below(bs.len())];
+            let a = if rng.below(4) == 0 { bs_any[rng.below(bs_any.len())] } else { bs[rng.below(bs.len())] };
             let y = others[rng.below(others.len())];
             let z = others[rng.below(others.len())];
             if y.base != z.base { continue; }
